@@ -8,7 +8,7 @@ patch=$src/patch.diff; demo=$src/demo_test.go
 [ -f "$patch" ] && [ -f "$demo" ] || { echo "missing files for $id"; exit 2; }
 export GOFLAGS=-mod=mod GOPROXY=off GOSUMDB=off GOTOOLCHAIN=local
 d=$(mktemp -d /tmp/cs.XXXXXX); trap 'rm -rf "$d"' EXIT
-cp -r /repo/. "$d/"; rm -rf "$d/.git"
+rsync -a --exclude .git /repo/ "$d/"
 cd "$d"
 cp "$demo" "$d/$place/zz_seed_demo_test.go"
 go test -vet=off -count=1 "./$place" >/tmp/cs3_clean_$id.log 2>&1; clean_rc=$?
